@@ -1195,3 +1195,177 @@ Proof.
   split; [reflexivity|]. split; [exact V|]. split; [|exact F].
   unfold gbt_crop. rewrite rt_block by assumption. cbn [bind]. rewrite Ecrop. reflexivity.
 Qed.
+
+(** * Statements in the form used by Props/C04.v *)
+Lemma rt_base_inv t NY NX : rt_wf t -> rt_base t = Ok (NY, NX) -> ax_N (rt_y t) = NY /\ ax_N (rt_x t) = NX.
+Proof. intros W H. rewrite rt_base_axes in H by assumption. inversion H. auto. Qed.
+
+Lemma tiles_init_inv base tile t :
+  0 < fst tile -> 0 < snd tile -> 0 <= fst base -> 0 <= snd base -> tiles_init base tile = Ok t ->
+  rt_wf (RReg t) /\ t_base t = base /\ t_tile t = tile /\
+  t_shape t = (cdiv (fst base) (fst tile), cdiv (snd base) (snd tile)).
+Proof.
+  intros H1 H2 H3 H4 E. destruct (tiles_init_wf base tile H1 H2 H3 H4) as (t' & E' & R).
+  rewrite E in E'. inversion E'; subst t'. exact R.
+Qed.
+
+Lemma tiles_init_err base tile : tiles_init base tile = Err EOther <-> fst tile = 0 \/ snd tile = 0.
+Proof.
+  unfold tiles_init. destruct (Z.eqb_spec (fst tile) 0); destruct (Z.eqb_spec (snd tile) 0); cbn [orb];
+    split; intros H; try reflexivity; try discriminate; tauto.
+Qed.
+
+Lemma vt_init_inv chy chx v :
+  nonneg chy -> nonneg chx -> sumZ chy < two63 -> sumZ chx < two63 -> vt_init chy chx = Ok v ->
+  rt_wf (RVar v) /\ rt_shape (RVar v) = (len chy, len chx) /\
+  rt_base (RVar v) = Ok (sumZ chy, sumZ chx) /\ rt_chunks (RVar v) = Ok (chy, chx) /\
+  (forall i, 0 <= i <= len chy -> By (RVar v) i = sumZ (firstn (Z.to_nat i) chy)) /\
+  (forall j, 0 <= j <= len chx -> Bx (RVar v) j = sumZ (firstn (Z.to_nat j) chx)).
+Proof.
+  intros Ny Nx Ty Tx E. rewrite sumZ_tot in Ty, Tx.
+  destruct (vt_init_wf chy chx Ny Nx Ty Tx) as (v' & E' & W & Oy & Ox).
+  rewrite E in E'. inversion E'; subst v'. split; [exact W|].
+  pose proof W as (Wy & Wx). cbn [rt_y rt_x] in Wy, Wx.
+  split; [|split; [|split; [|split]]].
+  - cbn [rt_shape]. unfold vt_shape. rewrite Oy, Ox, !len_offsets. f_equal; lia.
+  - rewrite rt_base_axes by assumption. cbn [rt_y rt_x].
+    rewrite (ax_N_var _ Wy), (ax_N_var _ Wx), Oy, Ox, !diffs_psum, !sumZ_tot. reflexivity.
+  - cbn [rt_chunks]. unfold vt_chunks. rewrite Oy, Ox, !diffs_psum. reflexivity.
+  - intros i Hi. unfold By. cbn [rt_y ax_B]. rewrite Oy, nthZ_offsets by assumption.
+    rewrite sumZ_tot. reflexivity.
+  - intros j Hj. unfold Bx. cbn [rt_x ax_B]. rewrite Ox, nthZ_offsets by assumption.
+    rewrite sumZ_tot. reflexivity.
+Qed.
+
+Lemma vt_init_overflow chy chx : forallb fits64 chy = false \/ forallb fits64 chx = false ->
+  vt_init chy chx = Err EOther.
+Proof.
+  intros H. unfold vt_init, vt_offsets.
+  destruct (forallb fits64 chy); destruct (forallb fits64 chx); cbn [bind]; try reflexivity.
+  destruct H; discriminate.
+Qed.
+
+Lemma rt_cover_exact t NY NX y x : rt_wf t -> rt_base t = Ok (NY, NX) ->
+  (0 <= y < NY /\ 0 <= x < NX) <-> exists rc, in_grid t rc /\ in_roi (tile_region t rc) (y, x).
+Proof.
+  intros W B. destruct (rt_base_inv t NY NX W B) as (<- & <-). split.
+  - intros (Hy & Hx). destruct (rt_partition t y x W Hy Hx) as (rc & _ & G & P & _). exists rc; auto.
+  - intros (rc & G & (P1 & P2)). pose proof (rt_region_inside t rc W G) as RI. cbv zeta in RI.
+    cbn [fst snd] in *. lia.
+Qed.
+
+Lemma rt_disjoint t rc rc' p : rt_wf t -> in_grid t rc -> in_grid t rc' ->
+  in_roi (tile_region t rc) p -> in_roi (tile_region t rc') p -> rc = rc'.
+Proof.
+  intros W G G' P P'. destruct p as (y, x).
+  pose proof (rt_region_inside t rc W G) as RI. cbv zeta in RI.
+  assert (Hy : 0 <= y < ax_N (rt_y t)) by (destruct P as (P1 & _); cbn [fst snd] in *; lia).
+  assert (Hx : 0 <= x < ax_N (rt_x t)) by (destruct P as (_ & P2); cbn [fst snd] in *; lia).
+  destruct (rt_partition t y x W Hy Hx) as (r0 & _ & _ & _ & U).
+  rewrite (U rc G P), (U rc' G' P'). reflexivity.
+Qed.
+
+(** regular tiles are never empty; variable tiles are as wide as their chunk *)
+Lemma reg_tile_nonempty t rc : rt_wf (RReg t) -> in_grid (RReg t) rc ->
+  let r := tile_region (RReg t) rc in fst (fst r) < snd (fst r) /\ fst (snd r) < snd (snd r).
+Proof.
+  intros (Wy & Wx) (G1 & G2). cbv zeta. unfold tile_region, By, Bx. cbn [fst snd rt_shape rt_y rt_x] in *.
+  split; apply ax_reg_strict; assumption.
+Qed.
+
+Lemma rt_crop_getitem t blk t' i j : rt_wf t -> valid_block t blk ->
+  rt_crop t (mk_roi blk) = Ok t' -> in_grid t' (i, j) ->
+  exists r', rt_getitem t' (int_idx (i, j)) = Ok r' /\
+             rt_getitem t (int_idx (fst (fst blk) + i, fst (snd blk) + j)) =
+               Ok (shift_roi r' (By t (fst (fst blk)), Bx t (fst (snd blk)))).
+Proof.
+  intros W V E G. destruct (rt_crop_spec t blk W V) as (t2 & E2 & W2 & _).
+  rewrite E in E2. inversion E2; subst t2.
+  destruct (rt_crop_tiles t blk t' i j W V E G) as (G' & R). cbv zeta in R.
+  exists (tile_region t' (i, j)). split; [apply rt_index_grid; assumption|].
+  rewrite rt_index_grid by assumption. rewrite R. reflexivity.
+Qed.
+
+Lemma clip_tiles_tiles t p r t' roi new : rt_wf t -> Forall (in_grid t) (p :: r) ->
+  clip_tiles t (p :: r) = Ok (t', roi, new) ->
+  valid_block t roi /\ rt_crop t (mk_roi roi) = Ok t' /\
+  new = map (fun yx => (fst yx - fst (fst roi), snd yx - fst (snd roi))) (p :: r) /\
+  In (fst (fst roi)) (map fst (p :: r)) /\ In (snd (fst roi) - 1) (map fst (p :: r)) /\
+  In (fst (snd roi)) (map snd (p :: r)) /\ In (snd (snd roi) - 1) (map snd (p :: r)) /\
+  Forall (fun yx =>
+            let n := (fst yx - fst (fst roi), snd yx - fst (snd roi)) in
+            in_grid t' n /\
+            exists r', rt_getitem t' (int_idx n) = Ok r' /\
+                       rt_getitem t (int_idx yx) =
+                         Ok (shift_roi r' (By t (fst (fst roi)), Bx t (fst (snd roi))))) (p :: r).
+Proof.
+  intros W G E.
+  destruct (clip_tiles_spec t p r W G) as (t2 & y1 & y2 & x1 & x2 & E2 & V & Ec & F & I1 & I2 & I3 & I4).
+  rewrite E in E2. inversion E2; subst t' roi new. clear E2. cbn [fst snd].
+  split; [exact V|]. split; [exact Ec|]. split; [reflexivity|].
+  replace (y2 + 1 - 1) with y2 by lia. replace (x2 + 1 - 1) with x2 by lia.
+  split; [exact I1|]. split; [exact I2|]. split; [exact I3|]. split; [exact I4|].
+  destruct (rt_crop_spec t _ W V) as (t3 & E3 & W3 & S3 & _). rewrite Ec in E3. inversion E3; subst t3.
+  cbn [fst snd] in S3.
+  rewrite Forall_forall in *. intros yx Hyx. specialize (F yx Hyx). cbv zeta.
+  assert (G2 : in_grid t2 (fst yx - y1, snd yx - x1)) by (unfold in_grid; rewrite S3; cbn [fst snd]; lia).
+  split; [exact G2|].
+  destruct (rt_crop_getitem t _ t2 _ _ W V Ec G2) as (r' & Er & Et). cbn [fst snd] in Et.
+  exists r'. split; [exact Er|].
+  replace (y1 + (fst yx - y1)) with (fst yx) in Et by lia.
+  replace (x1 + (snd yx - x1)) with (snd yx) in Et by lia.
+  destruct yx; exact Et.
+Qed.
+
+Lemma gbt_chunk_shape_spec g rc gb : rt_wf (gb_tiles g) -> in_grid (gb_tiles g) rc ->
+  gbt_getitem g (int_idx rc) = Ok gb -> gbt_chunk_shape g rc = Ok (g_ny gb, g_nx gb).
+Proof.
+  intros W G E. rewrite gbt_tile in E by assumption. inversion E; subst gb. clear E.
+  unfold gbt_chunk_shape. destruct rc as (r, c). destruct G as (G1 & G2). cbn [fst snd] in *.
+  rewrite rt_tile_shape_spec by (try assumption; lia). cbv zeta.
+  destruct (in_range_grid _ _ G1) as (-> & ->). destruct (in_range_grid _ _ G2) as (-> & ->).
+  reflexivity.
+Qed.
+
+Lemma gbt_clip_tiles g p r g' new : rt_wf (gb_tiles g) -> Forall (in_grid (gb_tiles g)) (p :: r) ->
+  gbt_clip g (p :: r) = Ok (g', new) ->
+  exists o, new = map (fun yx => (fst yx - fst o, snd yx - snd o)) (p :: r) /\
+    Forall (fun yx => let n := (fst yx - fst o, snd yx - snd o) in
+                      in_grid (gb_tiles g') n /\
+                      gbt_getitem g' (int_idx n) = gbt_getitem g (int_idx yx)) (p :: r).
+Proof.
+  intros W G E.
+  destruct (gbt_clip_spec g p r W G) as (g2 & y1 & y2 & x1 & x2 & E2 & V & Ec & F).
+  rewrite E in E2. inversion E2; subst g' new. clear E2.
+  exists (y1, x1). cbn [fst snd]. split; [reflexivity|].
+  destruct (gbt_crop_spec g _ W V) as (g3 & E3 & _ & Ct & W3). rewrite Ec in E3. inversion E3; subst g3.
+  destruct (rt_crop_spec _ _ W V) as (t3 & E4 & _ & S3 & _). rewrite Ct in E4. inversion E4; subst t3.
+  cbn [fst snd] in S3.
+  rewrite Forall_forall in *. intros yx Hyx. specialize (F yx Hyx). cbv zeta.
+  assert (G2 : in_grid (gb_tiles g2) (fst yx - y1, snd yx - x1))
+    by (unfold in_grid; rewrite S3; cbn [fst snd]; lia).
+  split; [exact G2|].
+  rewrite (gbt_crop_tiles g _ g2 _ _ W V Ec G2). cbn [fst snd].
+  replace (y1 + (fst yx - y1)) with (fst yx) by lia.
+  replace (x1 + (snd yx - x1)) with (snd yx) by lia. destruct yx; reflexivity.
+Qed.
+
+(** an empty base: no tiles, every lookup is an IndexError *)
+Lemma reg_empty_base t ty tx NX : 0 < ty -> 0 < tx -> 0 <= NX -> tiles_init (0, NX) (ty, tx) = Ok t ->
+  fst (t_shape t) = 0 /\
+  (forall r c, tiles_getitem t (int_idx (r, c)) = Err EIndex) /\
+  (forall p, tiles_locate t p = Err EIndex) /\
+  tiles_chunks t = Err EIndex.
+Proof.
+  intros Hy Hx HN E.
+  destruct (tiles_init_inv (0, NX) (ty, tx) t Hy Hx ltac:(cbn; lia) HN E) as (W & Eb & Et & Es).
+  cbn [fst snd] in Es. rewrite cdiv_zero in Es by assumption.
+  split; [rewrite Es; reflexivity|]. split; [|split].
+  - intros r c. change (tiles_getitem t (int_idx (r, c))) with (rt_getitem (RReg t) (int_idx (r, c))).
+    rewrite rt_index by assumption. cbv zeta. cbn [rt_shape]. rewrite Es. cbn [fst].
+    unfold in_range. destruct (Z.leb_spec (-0) r); destruct (Z.ltb_spec r 0); cbn [andb]; try reflexivity; lia.
+  - intros (y, x). change (tiles_locate t (y, x)) with (rt_locate (RReg t) (y, x)).
+    apply rt_locate_outside; [assumption|]. cbn [rt_y]. rewrite Eb, Et, Es. cbn [fst].
+    unfold ax_N, ax_B, ax_S, regB. lia.
+  - unfold tiles_chunks, tiles_tile_shape. rewrite Es, Eb, Et. cbn [fst snd]. reflexivity.
+Qed.
